@@ -339,6 +339,19 @@ fn expand_dev(st: &DevState, depth: usize, l: &mut Local, out: &mut Vec<DevState
         l.check("deviation set reports the true maximum, minimum and symmetric zone", "", ext, mk, || {
             format!("{:?}: max {:?} min {:?} zone {} (contents {:?})", st, s.max().map(|d| d.deviation), s.min().map(|d| d.deviation), s.symmetrical_zone_size(), vals)
         });
+        // a set that went through serialisation and back is the same set: same contents, same extremes, and a
+        // further push updates them correctly
+        match serde_json::to_string(&s).ok().and_then(|t| serde_json::from_str::<SurfaceDeviationSet2>(&t).ok()) {
+            Some(mut back) => {
+                let mut ok = back.len() == s.len() && back.max().map(|d| d.deviation) == Some(mx) && back.min().map(|d| d.deviation) == Some(mn) && back.symmetrical_zone_size() == s.symmetrical_zone_size();
+                back.push(dev(vals.len(), 0.25));
+                ok &= back.max().map(|d| d.deviation) == Some(mx.max(0.25)) && back.min().map(|d| d.deviation) == Some(mn.min(0.25));
+                l.check("a deviation set restored from its serialised form reports the same extremes", "", ok, mk, || format!("{:?}", st));
+            }
+            None => {
+                l.check("a deviation set restored from its serialised form reports the same extremes", "round trip failed", false, mk, || format!("{:?}", st));
+            }
+        }
         let same = fresh.max().map(|d| d.deviation) == s.max().map(|d| d.deviation) && fresh.min().map(|d| d.deviation) == s.min().map(|d| d.deviation);
         l.check("a set built from scratch with the same contents reports the same extremes", "", same, mk, String::new);
     }
@@ -391,6 +404,26 @@ fn expand_cloud(m: &CloudModel, depth: usize, l: &mut Local, out: &mut Vec<Cloud
     }
     l.eval();
     l.check("point cloud invariant: contents equal the model, parallel arrays the same length", "", cloud_same(&cloud_of(m), m), mk("invariant".into()), || format!("{:?}", m));
+    // the constructor refuses parallel arrays of another length, whichever of them are present
+    {
+        let n = m.pts.len();
+        let pts = || m.pts.iter().map(|i| Point3::new(*i as f64, 0.0, 0.0)).collect::<Vec<_>>();
+        let normals = |k: usize| (0..k).map(|i| UnitVec3::new_normalize(Vector3::new(1.0, i as f64, 0.0))).collect::<Vec<_>>();
+        let colors = |k: usize| (0..k).map(|i| [i as u8, 0, 0]).collect::<Vec<_>>();
+        let mut ok = true;
+        for off in [1usize, 2] {
+            ok &= PointCloud::try_new(pts(), None, Some(colors(n + off))).is_err();
+            ok &= PointCloud::try_new(pts(), Some(normals(n + off)), None).is_err();
+            ok &= PointCloud::try_new(pts(), Some(normals(n)), Some(colors(n + off))).is_err();
+            ok &= PointCloud::try_new(pts(), Some(normals(n + off)), Some(colors(n))).is_err();
+            if n >= off {
+                ok &= PointCloud::try_new(pts(), None, Some(colors(n - off))).is_err();
+                ok &= PointCloud::try_new(pts(), Some(normals(n - off)), None).is_err();
+            }
+        }
+        ok &= PointCloud::try_new(pts(), Some(normals(n)), Some(colors(n))).is_ok() && PointCloud::try_new(pts(), None, Some(colors(n))).is_ok();
+        l.check("construction: parallel arrays of another length are refused, matching ones accepted", "", ok, mk("try_new".into()), || format!("{:?}", m));
+    }
     let next_id = m.pts.len() as i32 + 1;
     for wn in [false, true] {
         for wc in [false, true] {
